@@ -9,6 +9,7 @@ let runners : (string * (string -> string list -> string list list -> (string ->
   ("C02", Drv_c02.run);
   ("C16", Drv_c16.run);
   ("C07", Drv_c07.run);
+  ("C11", Drv_c11.run);
 ]
 
 (* optional third argument: the harness output for the same cases (for models that need
